@@ -29,6 +29,9 @@ NAMES = ["a", "file.txt", "with space", ".hidden", "-dash", "ünï", "日本", "
 # names/text that Unicode normalisation would change (decomposed accents, OHM SIGN, ANGSTROM SIGN, jamo,
 # compatibility ligature): a transfer must reproduce them code point for code point
 NAMES += ["e\u0301cole", "\u2126hm", "\u212bng", "\u1112\u1161\u11ab", "o\ufb03ce"]
+# a backslash is an ordinary file-name character on POSIX; names that are not valid UTF-8 (legacy encodings)
+# appear to Python as lone surrogates (surrogateescape)
+NAMES += ["report\\2024.txt", "..\\up", "caf\udce9.txt", "caf\udce8.txt"]
 ODD_TEXT = ["e\u0301", "\u2126 \u212b", "\u1112\u1161\u11ab", "o\ufb03ce \u00b2", "it's \"quoted\"\n\ttab", "\u00fc\u00f1\u00ed \u2603 \x07",
             "back\\slash", "'", '"', "\\n"]
 
@@ -311,7 +314,12 @@ def run_case(c):
         info = "kind=%s %s fault=%s@%d applied=%r sender=%s receiver=%s" % (
             kind, c.get("size", c.get("tree", ""))if kind != "text" else repr(c["text"])[:40], c["fault"], c["fault_at"],
             faulted[0], _short(S), _short(R))
-        if faulted[0] is None:
+        undecodable = any(0xDC80 <= ord(ch) <= 0xDCFF for ch in json.dumps(c.get("tree") or c.get("fname") or "", ensure_ascii=False))
+        if faulted[0] is None and undecodable:
+            # names that are not valid UTF-8: the pinned sender refuses such a tree (UnicodeEncodeError), which
+            # satisfies the statement; not part of the anti-vacuity ratio
+            res.notes["undecodable_name_cases:%s" % ("both-ok" if s_ok and r_ok else "refused")] += 1
+        elif faulted[0] is None:
             # anti-vacuity only (the statement makes no liveness claim): counted, judged per run in health()
             res.notes["unfaulted_cases"] += 1
             if s_ok and r_ok:
